@@ -2,7 +2,8 @@
  * (sizes used by the checks are <= ~2000) and then draw values. */
 #include "hx.h"
 
-int_t gen_onesK[64]; int gen_nones;   /* index set of the last "onesblock" */
+int_t gen_onesK[64]; int gen_nones;
+int_t gen_zerocols[16]; int gen_nzerocols;   /* index set of the last "onesblock" */
 
 static void shuffle(rng_t *r, int_t *p, int_t n)
 {
@@ -124,6 +125,40 @@ int gen_matrix(const case_t *c, rng_t *r, csc_t *A)
         for (int_t q = (n - ncpl < 0 ? 0 : n - ncpl); q < n; ++q) {
             P(q, q) = 2;
             for (int_t q2 = n - ncpl; q2 < n; ++q2) if (q2 >= 0 && q2 != q) P(q2, q) = 1;
+        }
+    } else if (!strcmp(fam, "tree")) {
+        /* A = 2I + A(j, parent(j)) for a chosen tree with parent(j) > j: columns j and parent(j) share row j and no
+           other pair of columns shares a row, so the graph of A'A is the tree itself and (parents being numbered after
+           their children) the column elimination tree IS the tree.  Extra entries A(j, ancestor) keep it. */
+        int shape = (int)cint(c, "shape", 0);
+        int_t kary = cint(c, "kary", 2); if (kary < 1) kary = 1;
+        int_t *par = (int_t *)malloc((size_t)(n + 1) * sizeof(int_t));
+        for (int_t j = 0; j < n; ++j) {
+            int_t p;
+            switch (shape) {
+            case 1: p = n - 1; break;                                         /* star                       */
+            case 2: p = n - 1 - (n - 2 - j) / kary; break;                    /* complete k-ary (heap order) */
+            case 3: p = (j % (kary + 1) == kary) ? j + kary + 1 : (j / (kary + 1)) * (kary + 1) + kary; break; /* caterpillar: k leaves per spine node */
+            case 4: { int_t g = n / (kary + 1); if (g < 1) g = 1; p = (j < n - g) ? n - g + j % g : j + 1; break; } /* g stars whose centres form a chain */
+            default: p = j + 1 + (int_t)rng_int(r, (uint64_t)(n - 1 - j > 0 ? n - 1 - j : 1)); break;  /* random recursive */
+            }
+            if (j == n - 1 || p >= n) p = n; if (p <= j) p = j + 1 <= n ? j + 1 : n;
+            par[j] = p;
+        }
+        double xanc = cdbl(c, "xanc", 0.0);
+        for (int_t j = 0; j < n && j < m; ++j) {
+            P(j, j) = 2;
+            if (par[j] < n) P(j, par[j]) = 1;
+            for (int_t a = par[j] < n ? par[par[j]] : n; a < n; a = par[a]) if (rng_u01(r) < xanc) P(j, a) = 1;
+        }
+        free(par);
+    } else if (!strcmp(fam, "blockdiag")) {
+        /* independent diagonal blocks: the column etree is a forest with one tree per block */
+        int_t bs = cint(c, "bs", 3); if (bs < 1) bs = 1;
+        for (int_t lo = 0; lo < n; ) {
+            int_t sz = 1 + (int_t)rng_int(r, 2 * bs); if (lo + sz > n) sz = n - lo;
+            for (int_t j = lo; j < lo + sz; ++j) for (int_t i = lo; i < lo + sz; ++i) if (i == j || rng_u01(r) < cdbl(c, "bdens", 0.8)) P(i, j) = (i == j) ? 2 : 1;
+            lo += sz;
         }
     } else if (!strcmp(fam, "dense")) {
         for (int_t j = 0; j < n; ++j) for (int_t i = 0; i < m; ++i) P(i, j) = (i == j) ? 2 : 1;
@@ -315,6 +350,13 @@ int gen_matrix(const case_t *c, rng_t *r, csc_t *A)
         long k;
         if ((k = cint(c, "zerocol", -1)) >= 0 && k < n)
             for (int_t t = A->colptr[k]; t < A->colptr[k + 1]; ++t) A->val[t] = MKE(0, 0);
+        gen_nzerocols = 0;
+        long nz2 = cint(c, "zerocols", 0);      /* several all-zero columns: the first one in A*Pc order must be reported */
+        for (long q = 0; q < nz2 && q < 16 && n > 0; ++q) {
+            int_t kc = (int_t)rng_int(r, n);
+            gen_zerocols[gen_nzerocols++] = kc;
+            for (int_t t = A->colptr[kc]; t < A->colptr[kc + 1]; ++t) A->val[t] = MKE(0, 0);
+        }
         if ((k = cint(c, "zerorow", -1)) >= 0)
             for (int_t t = 0; t < A->nnz; ++t) if (A->rowind[t] == k) A->val[t] = MKE(0, 0);
         /* dupcol=a,b : column b := column a (values and structure) -> exact numerical singularity */
